@@ -78,7 +78,7 @@ fn judge_file(out: &mut Out, st: &mut St, cfg: &Cfg, kind: &str, wr: Writer, pcm
         other => { out.viol("frame-iterator-open", &format!("FrameIterator::new fails on encoder output: {:?}", other.map(|r| r.map(|_| ()).map_err(|e| err_class(&e)))), &input); return; }
     };
     let si = it.metadata().streaminfo().clone();
-    let r = catch(|| it.collect::<Vec<_>>());
+    let r = catch(|| { let mut v = vec![]; for r in it { let stop = r.is_err(); v.push(r); if stop { break; } } v });
     let items = match r { Ok(v) => v, Err(p) => { out.viol_panic("frame-iterator", &p, &format!("FrameIterator panics on encoder output: {}", p), &input); return; } };
     let mut offs: Vec<usize> = vec![];
     let mut frames = vec![];
@@ -116,7 +116,7 @@ fn judge_file(out: &mut Out, st: &mut St, cfg: &Cfg, kind: &str, wr: Writer, pcm
     }
     if total != (pcm.len() / cfg.ch as usize) as u64 { out.viol("sample-count-wrong", &format!("frames hold {} samples per channel, {} were encoded", total, pcm.len() / cfg.ch as usize), &input); }
     if si.minimum_block_size != cfg.bs || si.maximum_block_size != cfg.bs { out.viol("streaminfo-block-size", &format!("STREAMINFO block size {}..{} for option {}", si.minimum_block_size, si.maximum_block_size, cfg.bs), &input); }
-    if st.cases < st.max_cases && file.len() < 3500 {
+    if st.cases < st.max_cases && file.len() < 12000 {
         st.cases += 1;
         out.case(dec_stream_case(file, Some(pcm), &[("src", esc("encoder")), ("cfg", cfg.json())]));
     }
@@ -131,7 +131,7 @@ fn main() {
     let kinds = all_kinds();
     let known = probe_known();
     clear_panic_loc();
-    let mut st = St { files: 0, frames: 0, ref_accepts: 0, kinds: Default::default(), cases: 0, max_cases: scale(if thorough { 2500 } else { 320 }), skipped_known: 0 };
+    let mut st = St { files: 0, frames: 0, ref_accepts: 0, kinds: Default::default(), cases: 0, max_cases: scale(if thorough { 6000 } else { 2500 }), skipped_known: 0 };
 
     let mut run = |out: &mut Out, st: &mut St, rng: &mut Rng, cfg: &Cfg, kind: &str, frames: usize, wr: Writer| {
         if cfg.hits_known_writer_defect(&known) { st.skipped_known += 1; return; }
@@ -191,7 +191,7 @@ fn main() {
         if let Ok(file) = encode_to_vec(Writer::Samples, &cfg, &pcm, &[pcm.len()]) { judge_file(&mut out, &mut st, &cfg, "witness", Writer::Samples, &pcm, &file); }
     }
     // random configurations
-    let nrand = scale(if thorough { 5000 } else { 450 });
+    let nrand = scale(if thorough { 25000 } else { 450 });
     for i in 0..nrand {
         let cfg = random_cfg(&mut rng, &known);
         let bs = cfg.bs as usize;
@@ -202,7 +202,7 @@ fn main() {
 
     // ---- raw frame streams from FlacStreamWriter, judged frame by frame
     let mut stream_frames = 0usize;
-    for i in 0..scale(if thorough { 1500 } else { 200 }) {
+    for i in 0..scale(if thorough { 8000 } else { 200 }) {
         let cfg = random_cfg(&mut rng, &known);
         let Ok(opts) = cfg.options() else { continue };
         let mut cur = Cursor::new(Vec::new());
